@@ -152,6 +152,7 @@ type Style struct {
 	BodyAndURL bool `json:"bodyAndURL,omitempty"` // POST with extra unrelated query parameters on the URL
 	Chunked    bool `json:"chunked,omitempty"`    // the body is sent with Transfer-Encoding: chunked (ContentLength unknown)
 	TextForm   int  `json:"textForm,omitempty"`   // lexical form of Issuer / NameID text: 0 plain, 1 CDATA section, 2 numeric character references, 3 split by a comment, 4 CDATA + plain
+	Trailer    int  `json:"trailer,omitempty"`    // what follows the end tag of the document element: 0 nothing, 1 LF, 2 CRLF, 3 a comment and LF
 	CT         int  `json:"ct,omitempty"`         // spelling of the request Content-Type: 0 bare, 1 with charset parameter, 2 mixed case, 3 charset without blank / quoted
 	HoistNS    int  `json:"hoistNS,omitempty"`    // SOAP: the query's namespace declarations sit on an ancestor: 0 no, 1 soap:Envelope, 2 soap:Body
 	B64Lines   int  `json:"b64Lines,omitempty"`   // POST SAMLRequest base64 with line breaks (RFC 2045 layout): 0 none, 1 CRLF every 76, 2 LF every 64
